@@ -357,8 +357,8 @@ func withCluster(p *Plan, qw, tw, tc int, note string) *Plan {
 	p.Rule += "; cross-check on real processes (cluster engine): " + note
 	p.Jobs = func(tier string) []Job {
 		js := inner(tier)
-		if len(js) > 4 {
-			js = js[:len(js)-qw]
+		if len(js) >= 16 {
+			js = append(js[:16-qw:16-qw], js[16:]...) // room for the cluster workers among the 16 that run at a time
 		}
 		w, c, cyc := qw, 1, "1"
 		if tier == "thorough" {
@@ -376,10 +376,18 @@ func ctlPlan(id string, q, t int, floor map[string]int64, rule string) *Plan {
 			"replicas are scripted types.Backend fakes that honour the backend contract (never (n<len, nil)) and reproduce remote.Remote's monitor-channel behaviour (one event per attachment)",
 			"what the controller asks replicas over REST is answered by an HTTP stub on each fake's own loopback address",
 			"file synchronisation of a rebuild is performed by the harness (copy of everything the WO replica did not receive itself)",
+			"four extra workers (net mode) put the real backend factory between controller and scripted replicas: backend/remote's REST calls reach a scripted control port, the data path runs through the real rpc.Client and rpc.Server (deadlines 1 s), monitor events come from the real ping monitor; faults are error replies, late replies and dropped connections",
 		},
 		Floor: floor,
 		Jobs: func(tier string) []Job {
-			return jobs("ctlsim", 16, tierN(tier, q, t), "", time.Duration(tierN(tier, 10, 60))*time.Minute)
+			js := jobs("ctlsim", 16, tierN(tier, q, t), "", time.Duration(tierN(tier, 10, 60))*time.Minute)
+			// the same scenarios with the real backend factory (backend/remote, rpc client and server, ping monitor)
+			// between the controller and the scripted replicas; slower per case (real deadlines), hence fewer cases
+			nq, nt := q/8+3, t/16+10
+			if id == "C03" {
+				nq, nt = 4, 40
+			}
+			return append(js, jobs("ctlsim", 4, tierN(tier, nq, nt), "net=1", time.Duration(tierN(tier, 15, 90))*time.Minute)...)
 		},
 		// thorough tier: two extra workers from a -race build (auxiliary sensor: reports are listed, not judged)
 		RaceJobs: func() []Job { return jobs("ctlsim", 2, 40, "", 60*time.Minute) },
